@@ -30,6 +30,7 @@ META = {
     "not_decided": "the sampling distributions themselves",
 }
 META["explanation"] += " Also DEP-C18 E1 (no save / restore of the global generators' state) and the COPY clause of the imputers."
+META["explanation"] += " Round 5: the default imputer's KEYS / VALUE / MERGE / NOMUT clauses and C07 OBS as dependencies. HAZARD: constructs that do not mean what they look like, met in the analysed code (defaults evaluated once, class-level containers changed through self, dict.fromkeys with a shared mutable value, late-binding lambdas, truth value of objects that define __len__) are reported by every check."
 MIN_INSTANCES = {"ORDER": 3, "ROW": 3, "ORIG": 1}
 
 
